@@ -9,7 +9,8 @@ RULE = ("strings over {letters, { } \\ \" ' space tab CR LF non-ASCII} (no backs
         "'{{' -> '\\{{'; used alone (render(quote s) must equal s for any data), between pairs of tags of every kind "
         "(value tags, comments), and as the body of a {{{{raw}}}} block; thorough adds every string of length ≤ 5 over a "
         "9-symbol alphabet; text around comments and block tags (where only the standalone-line rule may remove whitespace next to the tag: every "
-        "other character must come out, in order); oracle = the string itself; non-trivial = contains a brace, backslash or whitespace; distinct by string")
+        "other character must come out, in order); the family of the Lean theorem C03.text_around_comment_is_kept (any text, any comment body, any text; "
+        "oracle = the theorem's closed form, exact); oracle = the string itself; non-trivial = contains a brace, backslash or whitespace; distinct by string")
 DEFINITE_FLOOR = 0.9
 ASSUMPTIONS = ["whitespace-only text next to a tag that C11's standalone rule names is placed only where that rule cannot fire (value tags)"]
 ALPHA = list("abXY{}{}\\\"' \t\r\n") + ["é", "→", "😀", "{{", "}}", "{{{", "\\\\"]
@@ -54,7 +55,7 @@ def generate(rng, n, tier="quick"):
             s = texts.pop()
         else:
             s = rand_text(r, r.range(0, 14))
-        mode = r.weighted([("alone", 5), ("between", 4), ("raw", 3), ("comment", 1), ("around", 4)])
+        mode = r.weighted([("alone", 5), ("between", 4), ("raw", 3), ("comment", 1), ("around", 4), ("thm", 4)])
         data = {"v": "V", "w": ""}
         if mode == "alone":
             if s.endswith("\\"):
@@ -105,6 +106,12 @@ def generate(rng, n, tier="quick"):
             case["id"] = "%s-%06d" % (ID, i)
             cases.append((case, {"mode": mode, "pieces": pieces, "s": L + M + R, "expect": None}))
             continue
+        elif mode == "thm":
+            # the family of the Lean theorem C03.text_around_comment_is_kept: L ++ {{!c}} ++ R for any text L that may
+            # stand before a tag, any comment body c, any text R without '{{'; the expectation is the theorem's closed form
+            L, c, R = thm_left(r), thm_body(r), thm_right(r)
+            tpl, exp = L + "{{!" + c + "}}" + R, comment_closed_form(L, R)
+            s = L + "|" + c + "|" + R
         elif mode == "comment":
             # a comment in the middle of a line of text writes nothing (text on both sides, so the line is not standalone)
             if s.endswith("\\"):
@@ -135,6 +142,58 @@ def generate(rng, n, tier="quick"):
     w["id"] = "C03-F1"
     cases.append((w, {"mode": "raw", "expect": " x {{y}} ", "s": " x {{y}} "}))
     return cases
+
+
+def _no_open(t):
+    while "{{" in t:
+        t = t.replace("{{", "{ {")
+    return t
+
+
+LINE_ENDS = ["", "\n", "\r\n", "\n  ", "x\n\t", "\r", "\n\n", " ", "\t ", "\n \t"]
+
+
+def thm_left(r):
+    t = _no_open(rand_text(r, r.range(0, 8)))
+    if r.chance(0.6):
+        t = r.pick(["", t]) + r.pick(LINE_ENDS)
+    if t.endswith("\\") or t.endswith("{"):
+        t += r.pick(["x", " ", "\n"])
+    return t
+
+
+def thm_right(r):
+    t = _no_open(rand_text(r, r.range(0, 8)))
+    if r.chance(0.6):
+        t = r.pick(["", "\r", "\r\n", "\n", " \r", "\t\n", "\r\r\n", "  \n", "  ", "\n\n", " \n x"]) + r.pick(["", t])
+    return _no_open(t)
+
+
+def thm_body(r):
+    c = "".join(r.pick(list("ab-{}! \t\n\\\"") + ["{{", "--", "{{!", "é", " -- "]) for _ in range(r.range(0, 6)))
+    while "}}" in c:
+        c = c.replace("}}", "} }")
+    if c.endswith("}"):
+        c += r.pick(["x", " "])
+    if c.lstrip(" \t\r\n").startswith("--"):
+        c = "x" + c
+    return c
+
+
+def comment_closed_form(L, R):
+    """the right-hand side of C03.text_around_comment_is_kept"""
+    BL = " \t"
+    NL = "\n\r"
+    tr = R.lstrip(BL)
+    tl = L.rstrip(BL)
+    standalone = (tr[:1] != "" and tr[0] in NL or tr == "") and (tl == "" or tl[-1] in NL)
+    if not standalone:
+        return L + R
+    if tr.startswith("\r\n"):
+        tr = tr[2:]
+    elif tr.startswith("\n"):
+        tr = tr[1:]
+    return tl + tr
 
 
 def fits(out, pieces):
